@@ -215,7 +215,9 @@ def run(seed, tier, n=None, kinds=("random", "grid", "hyperband", "random", "bay
         lines, expect = [], []
         soft = []
         try:
-            tags = scenario(sseed, kind, res, lines, expect, soft)
+            import contextlib, io
+            with contextlib.redirect_stdout(io.StringIO()):      # Parent.to_proto prints its values
+                tags = scenario(sseed, kind, res, lines, expect, soft)
         except Violation as v:
             res.violations.append({"pid": v.pid, "what": v.what, "sig": v.sig, "replay": {"suite": "rpc", "seed": sseed, "kind": kind}})
             continue
